@@ -7,6 +7,8 @@ package rib
 
 //@ guarded_by RIB.nrMu: niRIB, postChangeHook
 //@ guarded_by RIB.pendMu: pendingEntries
+// the five AFT tables of an instance are protected by that instance's lock
+//@ guarded_path RIBHolder.mu: r.Afts.Ipv4Entry, r.Afts.Ipv6Entry, r.Afts.LabelEntry, r.Afts.NextHopGroup, r.Afts.NextHop
 
 //@ pred holdersNonNil(r *RIB) = forall k in dom(r.niRIB) :: r.niRIB[k] != nil
 
@@ -745,6 +747,7 @@ package rib
 
 //@ unit RIBHolder.locklessDeleteIPv4
 //@ requires holderWF(r) && unixTS != nil
+//@ holds r.mu:W
 //@ ensures[missing] (!(prefix in old(dom(r.r.Afts.Ipv4Entry))) || old(r.r.Afts.Ipv4Entry[prefix]) == nil) ==> result0 != nil && kept_v4(r.r.Afts) && hookCount == old(hookCount)
 //@ ensures[removed] prefix in old(dom(r.r.Afts.Ipv4Entry)) && old(r.r.Afts.Ipv4Entry[prefix]) != nil ==> result0 == nil && !(prefix in dom(r.r.Afts.Ipv4Entry)) && othersKept_v4(r.r.Afts, prefix)
 //@   && hookCount == old(hookCount) + ite(old(r.postChangeHook) != nil, 1, 0)
@@ -754,6 +757,7 @@ package rib
 
 //@ unit RIBHolder.locklessDeleteIPv6
 //@ requires holderWF(r) && unixTS != nil
+//@ holds r.mu:W
 //@ ensures[missing] (!(prefix in old(dom(r.r.Afts.Ipv6Entry))) || old(r.r.Afts.Ipv6Entry[prefix]) == nil) ==> result0 != nil && kept_v6(r.r.Afts) && hookCount == old(hookCount)
 //@ ensures[removed] prefix in old(dom(r.r.Afts.Ipv6Entry)) && old(r.r.Afts.Ipv6Entry[prefix]) != nil ==> result0 == nil && !(prefix in dom(r.r.Afts.Ipv6Entry)) && othersKept_v6(r.r.Afts, prefix)
 //@   && hookCount == old(hookCount) + ite(old(r.postChangeHook) != nil, 1, 0)
@@ -763,6 +767,7 @@ package rib
 
 //@ unit RIBHolder.locklessDeleteMPLS
 //@ requires holderWF(r) && unixTS != nil
+//@ holds r.mu:W
 //@ ensures[missing] (!(label in old(dom(r.r.Afts.LabelEntry))) || old(r.r.Afts.LabelEntry[label]) == nil) ==> result0 != nil && kept_mpls(r.r.Afts) && hookCount == old(hookCount)
 //@ ensures[removed] label in old(dom(r.r.Afts.LabelEntry)) && old(r.r.Afts.LabelEntry[label]) != nil ==> result0 == nil && !(label in dom(r.r.Afts.LabelEntry)) && othersKept_mpls(r.r.Afts, label)
 //@   && hookCount == old(hookCount) + ite(old(r.postChangeHook) != nil, 1, 0)
@@ -772,6 +777,7 @@ package rib
 
 //@ unit RIBHolder.locklessDeleteNHG
 //@ requires holderWF(r) && unixTS != nil
+//@ holds r.mu:W
 //@ ensures[missing] (!(id in old(dom(r.r.Afts.NextHopGroup))) || old(r.r.Afts.NextHopGroup[id]) == nil) ==> result0 != nil && kept_nhg(r.r.Afts) && hookCount == old(hookCount)
 //@ ensures[removed] id in old(dom(r.r.Afts.NextHopGroup)) && old(r.r.Afts.NextHopGroup[id]) != nil ==> result0 == nil && !(id in dom(r.r.Afts.NextHopGroup)) && othersKept_nhg(r.r.Afts, id)
 //@   && hookCount == old(hookCount) + ite(old(r.postChangeHook) != nil, 1, 0)
@@ -781,6 +787,7 @@ package rib
 
 //@ unit RIBHolder.locklessDeleteNH
 //@ requires holderWF(r) && unixTS != nil
+//@ holds r.mu:W
 //@ ensures[missing] (!(index in old(dom(r.r.Afts.NextHop))) || old(r.r.Afts.NextHop[index]) == nil) ==> result0 != nil && kept_nh(r.r.Afts) && hookCount == old(hookCount)
 //@ ensures[removed] index in old(dom(r.r.Afts.NextHop)) && old(r.r.Afts.NextHop[index]) != nil ==> result0 == nil && !(index in dom(r.r.Afts.NextHop)) && othersKept_nh(r.r.Afts, index)
 //@   && hookCount == old(hookCount) + ite(old(r.postChangeHook) != nil, 1, 0)
